@@ -140,8 +140,14 @@ def main(argv=None):
         ctx = mp.get_context("spawn")
         chunk = max(1, min(8, n // (jobs * 8) or 1))
         with ctx.Pool(jobs, initializer=_worker_init, initargs=(pid,)) as pool:
+            prog, done, tlast = os.environ.get("VERIF_PROGRESS"), 0, time.time()
             for r in pool.imap_unordered(_run_one, list(enumerate(cases)), chunksize=chunk):
                 results[r["_idx"]] = r
+                done += 1
+                if prog and time.time() - tlast > 30:  # coverage of a run that is later cut short stays readable
+                    tlast = time.time()
+                    with open(prog, "w") as fh:
+                        fh.write(f"{pid} tier={a.tier} done={done}/{n} failing={sum(1 for x in results if x and _failures_of(x))} wall={tlast - t0:.0f}s\n")
 
     # ---------------------------------------------------------------- aggregate
     known = F.load(pid)
